@@ -82,7 +82,7 @@ func init() { props["C19"] = runC19 }
 
 func runC19(r *Result, d *drv.Driver, tier string, seed int64, replay string) {
 	r.Rule = "exhaustive: every annotated field of every exported struct type (195 fields, 58 types) — the number its annotation resolves to through the real Encode against the tag KMIP 1.4 assigns (SpecStructs, transcribed independently); " +
-		"every (struct type, tag it is written under) pair against the structure the spec puts directly around the type's items; wire probe: populated instances of every struct type through the real Encode, the tags of the emitted child items against the numbers the annotations denote (the numbers GenC19 proves equal to the spec's). distinct = one per field / per (type, container) pair"
+		"every (struct type, tag it is written under) pair against the structure the spec puts directly around the type's items; wire probe: populated instances of every struct type through the real Encode, the tags of the emitted child items against the numbers the annotations denote (the numbers GenC19 proves equal to the spec's); large messages (4..40 KiB): one well-nested item, every structure length exactly enclosing its children, tag tree equal to the independent serializer's. distinct = one per field / per (type, container) pair"
 	r.Exhaustive = true
 	rep, err := d.Ask("c19")
 	if err != nil || !strings.HasPrefix(rep, "ok ") {
@@ -103,6 +103,7 @@ func runC19(r *Result, d *drv.Driver, tier string, seed int64, replay string) {
 	out, _, _ = realEncode(rr)
 	r.sample(map[string]string{"value": "RevokeRequest{RevocationReason:{Code:1, Message:\"m\"}}", "real_encode": out})
 	c19Wire(r, seed, tier)
+	c19WireBig(r)
 	if len(parts) == 2 && parts[1] != "" {
 		for _, e := range strings.Split(parts[1], ";") {
 			f := strings.Split(e, "|")
@@ -477,6 +478,75 @@ func c18MarkerForms(r *Result) {
 				r.find(Finding{Kind: "violation", What: "the struct annotation kmip:\"" + x + "\" carried by " + form.name + " does not resolve to the number of " + x,
 					Input: map[string]string{"annotation": x, "carrier": form.name}, Expect: fmt.Sprintf("%06x", tagNum[x]), Actual: got})
 			}
+		}
+	}
+}
+
+// c19WireBig: the nesting of LARGE messages (a value of 4..20 KiB, hundreds of items: 5..40 KiB in all). Each is encoded by the
+// real Encode; the bytes must parse as ONE well-nested item spanning everything, every structure's declared length must be
+// exactly the space its children take, and the tree of tags must be the tree the independent serializer of the harness
+// (altenc.go, which never calls Encode) produces for the same value: every field under the structure KMIP puts it in.
+func c19WireBig(r *Result) {
+	var shape func(ns []*mut.Node, sb *strings.Builder) bool
+	shape = func(ns []*mut.Node, sb *strings.Builder) bool {
+		ok := true
+		for _, n := range ns {
+			fmt.Fprintf(sb, "%06x", n.Tag)
+			if n.Typ == 1 {
+				used := 0
+				for _, k := range n.Kids {
+					used += k.End - k.Off
+				}
+				if used != int(n.Len) {
+					ok = false
+					fmt.Fprintf(sb, "!len=%d,children=%d", n.Len, used)
+				}
+				sb.WriteString("(")
+				if !shape(n.Kids, sb) {
+					ok = false
+				}
+				sb.WriteString(")")
+			}
+			sb.WriteString(" ")
+		}
+		return ok
+	}
+	for _, c := range bigCases() {
+		res, b, _ := realEncode(c.top)
+		r.Evaluations++
+		r.Stats["c19wire-big"]++
+		key := fmt.Sprintf("%s of %d bytes", c.typ, len(b))
+		if !strings.HasPrefix(res, "ok") {
+			r.find(Finding{Kind: "violation", What: "a large well-formed message could not be encoded", Input: key, Actual: res})
+			continue
+		}
+		ref, ok := altEncode(c.top, altOpts{})
+		if !ok {
+			continue
+		}
+		var got, want strings.Builder
+		top := mut.Parse(b)
+		wellNested := shape(top, &got)
+		shape(mut.Parse(ref), &want)
+		if len(top) != 1 || top[0].End != len(b) || !wellNested || got.String() != want.String() {
+			g, w := got.String(), want.String()
+			i := 0
+			for i < len(g) && i < len(w) && g[i] == w[i] {
+				i++
+			}
+			from := i - 60
+			if from < 0 {
+				from = 0
+			}
+			r.find(Finding{Kind: "violation", What: "a large message is not nested as KMIP nests it (structure lengths do not enclose their fields / fields appear at another level)",
+				Input:  map[string]string{"message": key, "first 64 bytes": hex.EncodeToString(b[:64])},
+				Expect: fmt.Sprintf("one item spanning %d bytes; tag tree …%s", len(b), w[from:min(len(w), i+80)]),
+				Actual: fmt.Sprintf("%d top-level item(s), first ends at %d; tag tree …%s", len(top), func() int {
+					if len(top) > 0 {
+						return top[0].End
+					}
+					return 0
+				}(), g[from:min(len(g), i+80)])})
 		}
 	}
 }
